@@ -90,6 +90,11 @@ pub fn run_scenario(seed: u64, i: usize, cells: &[Cell], tier: Tier) -> Outcome 
     t.quote = Quote::Full;
     let topo = Topology { hops, target: t, tcp: *r.pick(&[TcpMode::SynAck, TcpMode::Rst]) };
     let mut wcfg = world_cfg(topo, seed ^ i as u64);
+    // TCP: local port collisions make the tracer re-issue probes under the next sequence; the
+    // re-issued probe must still be the one its response is matched to
+    if cell.protocol == Protocol::Tcp && r.chance(1, 2) {
+        wcfg.faults.bind_in_use_pct = r.range(3, 25) as u8;
+    }
     // negative half: near-miss forgeries arrive just before the genuine response
     wcfg.adversary = Adversary {
         forgeries: vec![(Forgery::OtherDest, 6), (Forgery::OtherProto, 6), (Forgery::OtherTracer, 6), (Forgery::OtherIcmpType, 3), (Forgery::OtherTeCode, 3)],
@@ -118,7 +123,9 @@ pub fn run_scenario(seed: u64, i: usize, cells: &[Cell], tier: Tier) -> Outcome 
             // another fixed port (another tracer), or the Dublin marker removed
             if tc.protocol != Protocol::Icmp {
                 let off = match tc.ports {
-                    trippy_core::PortDirection::FixedSrc(_) | trippy_core::PortDirection::FixedBoth(_, _) => hl,
+                    trippy_core::PortDirection::FixedSrc(_) => hl,
+                    // both ports identify the tracer: alter one of them
+                    trippy_core::PortDirection::FixedBoth(_, _) => hl + 2 * r.below(2) as usize,
                     _ => hl + 2,
                 };
                 if tc.protocol == Protocol::Udp && tc.strategy == MultipathStrategy::Dublin && v6 && r.chance(1, 2) && transit.len() >= 54 {
@@ -184,7 +191,7 @@ pub fn run_scenario(seed: u64, i: usize, cells: &[Cell], tier: Tier) -> Outcome 
 
 pub fn run(tier: Tier, seed: u64, only: Option<usize>) -> i32 {
     let mut rep = Report::new("C02", "exploration", tier, seed);
-    rep.rule = "scenario = cell x initial sequence x lossless in-order path of 254 routers + target (max-inflight 255, so every round issues 254 consecutive sequences); per hop the quotation shape is drawn: IPv4 header+8 / +28 / +n / full (IPv6 always as much as fits), RFC 4884 none / length-only / compliant / legacy with MPLS and unknown objects, quoted TTL 0/1, quoted header checksum recomputed or stale, TOS rewritten, IPv4 options in the outer header; 6% of genuine responses are preceded by a near-miss forgery (other destination, other protocol, other identifier / fixed port, Dublin marker altered, other ICMP type/code) which must complete nothing; every probe whose genuine response was read must be Complete with the right responder; thorough walks initial sequences so that every issuable value is issued (per-cell counts under distinct_observed seq:<cell>)".into();
+    rep.rule = "scenario = cell x initial sequence x lossless in-order path of 254 routers + target (max-inflight 255, so every round issues 254 consecutive sequences; half of the TCP scenarios with 3..25% local port collisions, i.e. re-issued probes); per hop the quotation shape is drawn: IPv4 header+8 / +28 / +n / full (IPv6 always as much as fits), RFC 4884 none / length-only / compliant / legacy with MPLS and unknown objects, quoted TTL 0/1, quoted header checksum recomputed or stale, TOS rewritten, IPv4 options in the outer header; 6% of genuine responses are preceded by a near-miss forgery (other destination, other protocol, other identifier / fixed port, Dublin marker altered, other ICMP type/code) which must complete nothing; every probe whose genuine response was read must be Complete with the right responder; thorough walks initial sequences so that every issuable value is issued (per-cell counts under distinct_observed seq:<cell>)".into();
     rep.assumptions = vec![
         "IPv6 routers quote as much of the datagram as fits in 1280 octets (RFC 4443 2.4c); IPv4 error messages with RFC 4884 structure are capped at 576 octets (RFC 1812)".into(),
         "a forgery differs from the genuine quotation in one identity component and arrives 1..50us before it".into(),
